@@ -15,8 +15,24 @@ AllTypes == [n \in (DOMAIN RequestTypes) \cup (DOMAIN ResponseTypes) \cup (DOMAI
 
 SomOf(type) == IF type = "EventV6_62" THEN 25 ELSE 23
 
+\* the Go type of every field can hold the layout's kind (a 32-bit field declared as a 16-bit one decodes "the encoded value"
+\* only for small values); logged as a shape class per field so that the comparison below stays total
+ShapeClass(kind) == CASE kind \in {"u8", "u16", "version"} -> "int"
+                      [] kind \in {"u32", "serial", "pin"} -> "pair"
+                      [] kind = "bool" -> "bool"
+                      [] kind \in {"ipv4", "mac"} -> "bytes"
+                      [] kind = "addrport" -> "addrport"
+                      [] kind = "date" -> "date"
+                      [] kind = "datetime" -> "datetime"
+                      [] kind = "sysdate" -> "sysdate"
+                      [] kind = "systime" -> "systime"
+                      [] kind \in {"hhmm", "hhmmp"} -> "hhmm"
+                      [] OTHER -> "other"
+ShapesOK(L, e) == ~Has(e, "shape") \/ \A k \in 1..Len(L.fields) : Has(e.shape, L.fields[k].name) /\ e.shape[L.fields[k].name] = ShapeClass(L.fields[k].kind)
+
 CheckRT(e) ==
   LET L == AllTypes[e.type] IN
+  IF ~ShapesOK(L, e) THEN Judge("C05", "FieldTypeFitsLayout", FALSE, e.shape, [k \in 1..Len(L.fields) |-> <<L.fields[k].name, ShapeClass(L.fields[k].kind)>>]) ELSE
   /\ Judge("C04", "NoPanic", e.enc.t # "panic" /\ e.dec.t # "panic" /\ e.dec2.t # "panic" /\ e.dec3.t # "panic" /\ e.dec4.t # "panic", <<e.enc.t, e.dec.t, e.dec2.t, e.dec3.t, e.dec4.t>>, "no panic")
   /\ Judge("C05", "EncodeExact", e.enc.t = "ok" /\ EncodedOK(L, SomOf(e.type), e.vals, e.enc.b), e.enc, e.vals)
   /\ (IF e.enc.t = "ok"
